@@ -35,6 +35,13 @@ GenNext  == Len(hist) < Depth /\ Next
 GenSpec  == Init /\ [][GenNext]_vars
 EmitEdge == (Len(hist') <= EmitDepth) => PrintT("@@B " \o ToJson(hist'))
 EmitFull == (Len(hist') = Depth) => PrintT("@@B " \o ToJson(hist'))
+\* simulation: the last step of a walk is the single action CheckFork, so that exactly one behaviour per walk is printed
+\* (TLC evaluates the action constraint on every candidate successor)
+\* and every other step is ONE action drawn inside the specification (TLC's simulator would otherwise compute all
+\* successors, a few hundred per step, only to pick one)
+SimNext == IF Len(hist) = Depth - 1 THEN Do([a |-> "CheckFork"])
+           ELSE (Len(hist) < Depth - 1 /\ \E act \in {RandomElement(Acts(s))} : Do(act))   \* bound once
+SimSpec == Init /\ [][SimNext]_vars
 
 \* exhaustive checking within a depth bound: the history is kept only as a length counter
 BoundedNext == Len(hist) < Depth /\ \E act \in Acts(s) : (s' = Step(s, act).s /\ hist' = Append(hist, 0))
